@@ -215,13 +215,13 @@ def _const_text(fn: ast.AST, e: ast.AST) -> Optional[str]:
 
 
 def _left_kind(left_txt: str) -> Optional[str]:
-    """'strong' = a negative look-behind whose class excludes word characters, '.' and '#' (the characters that can
-    precede a producer name inside a longer reference), or a start-of-string alternative; 'word' = plain \\b."""
+    """'strong' = a negative look-behind whose class excludes word characters, '.', '#' and '/' (the characters that can
+    precede a producer name / path segment inside a longer reference), or a start-of-string alternative; 'word' = plain \\b."""
     import re as _re
     m = list(_re.finditer(r"\(\?<!\[([^\]]*)\]\)\s*$", left_txt))
     if m:
         cls = m[-1].group(1)
-        if "\\w" in cls and "." in cls and "#" in cls:
+        if "\\w" in cls and "." in cls and "#" in cls and "/" in cls:
             return "strong"
         return "word"
     if left_txt.endswith("^") or "(?:^|" in left_txt:
@@ -263,16 +263,48 @@ def pattern_anchoring(expr: ast.AST, fn: Optional[ast.AST] = None, binds: Option
     texts: List[Optional[str]] = [(_const_text(fn, p) if fn is not None else (p.value if isinstance(p, ast.Constant) and isinstance(p.value, str) else None))
                                   for p in parts]
     idx = [i for i, p in enumerate(parts) if isinstance(p, ast.Call) and call_name(p) == "re.escape"]
+    # an alternation of escaped keys: '|'.join(re.escape(k) for k in <keys>)  (possibly bound to a local first)
+    alt_keys: Dict[int, ast.AST] = {}
+    for i, p in enumerate(parts):
+        cands = [p]
+        if isinstance(p, ast.Name) and fn is not None:
+            cands = _local_values(fn, p.id) or [p]
+        for c in cands:
+            if isinstance(c, ast.Call) and isinstance(c.func, ast.Attribute) and c.func.attr == "join" \
+                    and isinstance(c.func.value, ast.Constant) and c.func.value.value == "|" and len(c.args) == 1 \
+                    and isinstance(c.args[0], (ast.GeneratorExp, ast.ListComp)) and len(c.args[0].generators) == 1:
+                g = c.args[0]
+                elt = g.elt
+                if isinstance(elt, ast.Call) and call_name(elt) == "re.escape" and elt.args and isinstance(elt.args[0], ast.Name) \
+                        and isinstance(g.generators[0].target, ast.Name) and g.generators[0].target.id == elt.args[0].id:
+                    it = g.generators[0].iter
+                    while isinstance(it, ast.Call) and call_name(it) in ("sorted", "list", "set", "tuple") and it.args:
+                        it = it.args[0]
+                    if isinstance(it, ast.Name) and it.id in binds:
+                        it = binds[it.id]
+                    alt_keys[i] = it
+    idx = sorted(set(idx) | set(alt_keys))
     unknown = [p for i, p in enumerate(parts) if i not in idx and texts[i] is None]
     if unknown:
         info["raw_interpolation"] = True
     if not idx:
         return info
-    info["escaped_key_nodes"] = [key_node(parts[i]) for i in idx if key_node(parts[i]) is not None]
+    info["escaped_key_nodes"] = [(alt_keys[i] if i in alt_keys else key_node(parts[i])) for i in idx
+                                 if i in alt_keys or key_node(parts[i]) is not None]
     info["escaped_keys"] = [source.src(k) for k in info["escaped_key_nodes"]]
+    info["alternation"] = bool(alt_keys)
     i0, i1 = idx[0], idx[-1]
     left_txt = "".join(t for t in texts[:i0] if t is not None)
     right_txt = "".join(t for t in texts[i1 + 1:] if t is not None)
+    if alt_keys and left_txt.endswith("(?:") and right_txt.startswith(")"):
+        # the alternation is wrapped in a non-capturing group between the anchors
+        left_txt, right_txt = left_txt[:-3], right_txt[1:]
+    elif alt_keys:
+        # an unwrapped alternation: the anchors bind only to the first / last alternative
+        info["left"] = info["right"] = False
+        info["left_kind"] = None
+        info["shape"] = info["shape"] + " (alternation not grouped: anchors apply to the outer alternatives only)"
+        return info
     info["left"] = left_txt.endswith("\\b") or any(a in left_txt for a in ("(?<!", "(?<=", "(?:^|")) or left_txt.endswith("^")
     info["left_kind"] = _left_kind(left_txt)
     info["right"] = right_txt.startswith("\\b") or any(right_txt.startswith(a) for a in ("(?!", "(?=", "(?:$|", "$"))
